@@ -151,6 +151,13 @@ func runScenario(c *Ctx, sc *EvoScenario, mon EvoMonitor) {
 		mon.AfterEpoch(c, sc, -1, nil, err)
 		return
 	}
+	for _, org := range pop.Organisms {
+		if len(org.Genotype.Genes) == 0 {
+			// outside every quantifier: start genomes have at least one connection gene
+			c.Count("scenarios.skipped_gene_less_random_genome", 1)
+			return
+		}
+	}
 	mon.Constructed(c, sc, pop)
 	var ex genetics.PopulationEpochExecutor
 	if sc.Parallel {
@@ -195,4 +202,38 @@ func snapSpecies(pop *genetics.Population) []*speciesPre {
 		res = append(res, p)
 	}
 	return res
+}
+
+// The finding recorded in known_findings.json: mateSinglePoint of two genomes without common genes, where every gene of
+// the larger parent precedes the first gene of the smaller one, yields a child without genes (NewPopulationRandom only).
+const keyGeneLessChild = "mate_singlepoint:gene-less-child:parents-without-common-genes"
+
+// diagnoseGeneLessChild searches the pre-epoch genomes for a pair which reproduces the recorded finding and confirms it
+// by mating independent copies. Returns the witness or nil.
+func diagnoseGeneLessChild(snaps []*SnapGenome) map[string]interface{} {
+	type rng struct {
+		s        *SnapGenome
+		min, max int64
+	}
+	var rs []rng
+	for _, s := range snaps {
+		if len(s.Genes) == 0 {
+			continue
+		}
+		rs = append(rs, rng{s, s.Genes[0].Innov, s.Genes[len(s.Genes)-1].Innov})
+	}
+	for _, x := range rs {
+		for _, y := range rs {
+			if len(x.s.Genes) <= len(y.s.Genes) && y.max < x.min {
+				a, b := buildFromSnap(x.s), buildFromSnap(y.s)
+				for _, pair := range [][2]*genetics.Genome{{a, b}, {b, a}} {
+					child, err := pair[0].VerifMateSinglePoint(pair[1], 1)
+					if err == nil && child != nil && len(child.Genes) == 0 {
+						return map[string]interface{}{"smaller_parent": x.s, "larger_parent": y.s}
+					}
+				}
+			}
+		}
+	}
+	return nil
 }
